@@ -752,6 +752,12 @@ func (vc *VC) compileClause(fi *FuncInfo, c *Clause) {
 			return
 		}
 		pos = ce.Pos()
+		// the actual arguments of the call are visible as arg0, arg1, ... (basic types only)
+		for i, a := range ce.Args {
+			if bt, ok := fi.Pkg.TypesInfo.TypeOf(a).(*types.Basic); ok && bt.Kind() != types.UntypedNil {
+				params = append(params, fmt.Sprintf("arg%d %s", i, types.Default(bt).String()))
+			}
+		}
 	} else if c.Kind == "go-requires" {
 		gs := vc.findGo(fi, c.Ord)
 		if gs == nil {
